@@ -447,6 +447,8 @@ pub fn initial_world(prop: &str, rng: Rng, case: u64) -> (World, Profile, usize)
         w.masks.no_failing_merge = false;
         w.masks.no_unsorted_merge = false;
     }
+    // (C10 keeps failing and unsorted merges masked: the known C09/C11 findings - merges that duplicate elements, roll backs that
+    // leave file sets behind - would be re-reported through the membership monitors; a broken roll back is C11's subject)
     if prop == "C03" {
         // tree shape does not depend on unique paths: explore unsorted, partial and failing merges as well
         w.masks.no_unsorted_merge = false;
